@@ -17,6 +17,13 @@ src = "/tmp/seed_%s/seed_out/%s" % (pid, which)
 sid = "%s-%s" % (pid, which)
 wt = "/tmp/vseed_%s" % sid
 dst = "/verif/seeded/%s" % sid
+if not os.path.exists(src + "/patch.diff"):
+    # re-verification of a kept seed: take patch and demo from /verif/seeded, keep its meta
+    import tempfile
+    tmp = tempfile.mkdtemp(prefix="reseed_")
+    for f in ("patch.diff", "demo.py", "meta.json"):
+        shutil.copy(os.path.join(dst, f), os.path.join(tmp, f))
+    src = tmp
 
 
 def sh(cmd, **kw):
